@@ -1231,14 +1231,36 @@ def rule_maybe(rows, prop):
                 continue
             seen.add(key); n += 1
             x = f["a"].replace(" ", "")
+            xs = {x, truth_subject(x, locs)}   # the dereferenced expression as written and looked through single-definition locals
             ok = False
             for g in expand_guards(f.get("g", [])):
-                c = g["cond"].replace(" ", "")
-                if g["pol"] == 1 and truth_subject(c, locs) == x:
+                c, pol_ = _strip_not(g["cond"].replace(" ", ""), g["pol"])   # peels !x / !!x, flipping the edge each time
+                if pol_ == 1 and ({truth_subject(c, locs), truth_subject(c, {})} & xs):
                     ok = True
-                m = re.fullmatch(r"\(!(.+)\)", c)
-                if g["pol"] == 0 and m and truth_subject(m.group(1), locs) == x:
-                    ok = True
+            if not ok:
+                # a bool local that was conjoined with the truth test right before it is branched on:
+                #   valid = valid && has_value(x); if (valid) { *x }
+                for g in expand_guards(f.get("g", [])):
+                    mv = re.fullmatch(r"%(\w+)", g["cond"].replace(" ", ""))
+                    if not mv or g["pol"] != 1:
+                        continue
+                    defs = [(d.get("line", 0), d["b"]) for d in r["facts"] if d["k"] in ("assign", "local") and d["a"].lstrip("%") == mv.group(1) and d.get("line", 0) <= g.get("line", 10**9)]
+                    if not defs:
+                        continue
+                    last = max(defs)[1].replace(" ", "")
+                    if _wraps_whole(last):
+                        last = last[1:-1]
+                    conj, depth, cur = [], 0, ""
+                    k = 0
+                    while k < len(last):
+                        ch = last[k]
+                        depth += ch == "("; depth -= ch == ")"
+                        if depth == 0 and last[k:k + 2] == "&&":
+                            conj.append(cur); cur = ""; k += 2; continue
+                        cur += ch; k += 1
+                    conj.append(cur)
+                    if any(({truth_subject(c_, locs), truth_subject(c_, {})} & xs) for c_ in conj):
+                        ok = True
             site = "%s:%s" % (relfile(r["file"]), r["fn"].split("::")[-1])
             if not ok and site + ":" + f["a"] in tbl["maybe_exempt"]:
                 ok = True
